@@ -14,7 +14,7 @@
      X <name> <id>
      P <b>
      K <useRes> <Rmask> <err> <ncalls> {<name>}* <nb> {<s> <v> <n> <t> <ds> <dv> <dk>}*   t: 0 mir 1 ext 2 res
-     E
+     E <nf> {<name> <t> <ds> <dv> <dk>}*      the model's environment at the end (t = -1: no definition)
    err: 0 none 1 repeated_decl 2 undeclared_op_ref 3 import_export
    Output: FAIL <case> <step> <key> <text>   and a final DONE <cases> <steps> <fails>. */
 #include <stdio.h>
@@ -196,7 +196,10 @@ static void build_module (inst_t *in, int nd, int *kinds, int *names) {
     }
   }
   in->nrefs = 0;
-  for (int n = 0; n < NN; n++) if (in->ref[n] != NULL) in->refs[in->nrefs++] = n;
+  for (int n = 0; n < NN; n++) { /* observed: imports and forwards that have a definition (see DevDanglingAccepted) */
+    if (in->ref[n] != NULL && in->ref[n]->item_type == MIR_forward_item && in->def[n] == NULL) in->ref[n] = NULL;
+    if (in->ref[n] != NULL) in->refs[in->nrefs++] = n;
+  }
   proto = MIR_new_proto (ctx, "p_ret", 1, &i64, 0);
   in->entry = addr_func (in, "entry");
   in->late = addr_func (in, "late");
@@ -221,6 +224,7 @@ static void run_addr (MIR_item_t f, int64_t *buf) {
 }
 
 static long ncase, nsteps, nfail;
+static int fin_t[NN], fin_s[NN], fin_v[NN], fin_k[NN]; /* environment at the end of the behaviour */
 static long caseno;
 static int step, bad;
 #define FAIL(key, ...) do { printf ("FAIL %ld %d %s ", caseno, step, key); printf (__VA_ARGS__); printf ("\n"); nfail++; bad = 1; } while (0)
@@ -256,6 +260,11 @@ static void observe (inst_t *in, MIR_item_t afunc, const char *how, int calls_p)
         if (inst[i].def[n] != NULL && inst[i].def[n]->addr == (void *) buf[k]) sprintf (chosen, "%s of m%d_%d", nm[n], inst[i].s, inst[i].v);
       for (int i = 1; i < 7; i++) if (ext_fn[i] == (void *) buf[k]) sprintf (chosen, "external #%d", i);
       if (res_fn[n] == (void *) buf[k]) sprintf (chosen, "the resolver's address");
+      if (!calls_p) { /* first run after later loads: does it see the definition that is the latest NOW? */
+        int64_t v2; int f2;
+        void *now = fin_t[n] < 0 ? NULL : expected_addr (n, fin_t[n], fin_s[n], fin_v[n], fin_k[n], &v2, &f2);
+        how = now != NULL && now == (void *) buf[k] ? "late_first_run_rebinds_to_latest" : "late_first_run_other";
+      }
       FAIL (how, "%s %s of m%d_%d is bound to %s, expected def t=%d s=%d v=%d", what, nm[n], in->s, in->v, chosen,
             in->b_t[n], in->b_s[n], in->b_v[n]);
       break;
@@ -418,6 +427,14 @@ int main (void) {
       trap_armed = 0;
       if (bad) abandon ();
     } else if (tag[0] == 'E') {
+      int nf;
+      if (scanf ("%d", &nf) != 1) return 3;
+      for (int n = 0; n < NN; n++) fin_t[n] = -1;
+      for (int i = 0; i < nf; i++) {
+        int n, t, ds, dv, dk;
+        if (scanf ("%d %d %d %d %d", &n, &t, &ds, &dv, &dk) != 5) return 3;
+        fin_t[n] = t; fin_s[n] = ds; fin_v[n] = dv; fin_k[n] = dk;
+      }
       if (!bad && ctx != NULL) {
         trap_armed = 1;
         if (setjmp (trap_buf) == 0) {
